@@ -2,7 +2,7 @@ SPECIFICATION Spec
 CONSTANTS
   W = 4
   Anns = {"both"}
-  Sizes = {0, 1, 2, 3}
+  Sizes = {0, 1, 2}
   MaxFaults = 1
   MaxInject = 1
   FaultKinds = {"Lose", "Drop", "Dup", "Flip", "WrongSid", "WrongFrom", "Swap", "EarlyClose"}
